@@ -384,6 +384,7 @@ func runCases(rep *Report, env *Env, cn *Conn, cases []*Exp, iu int, cfg string,
 		pre := patPrefix(1, e.Len)
 		replay := map[string]any{"engine": "TestC14Cases", "msize": iu + 24, "dotu": cn.Dotu, "case": e}
 		file := go9p.FidFile(of.fid, uint64(e.H0))
+		rep.Progress(map[string]any{"engine": rep.Engine, "cfg": cfg, "op": e.Op, "len": e.Len, "off": e.Off, "cnt": e.Cnt, "cls": caseKey(e, iu, e.Len, "x")})
 		n, data, cerr := call(cn.Clnt, file, e.Op, e.Off, e.Cnt, 2)
 		rep.Cases++
 		distinct[fmt.Sprintf("%d/%s/%d/%d/%d", iu, e.Op, e.Len, e.Off, e.Cnt)] = true
@@ -614,6 +615,7 @@ func TestC14Seq(t *testing.T) {
 				continue
 			}
 			flen := len(sf.cur)
+			rep.Progress(map[string]any{"engine": rep.Engine, "cfg": cfg, "op": l.Op, "len": flen, "off": e.Off, "cnt": l.Cnt, "cls": caseKey(e, iu, flen, "x"), "ops": caseOps})
 			n, data, cerr := call(cn.Clnt, sf.file, l.Op, l.Off, l.Cnt, l.W)
 			steps++
 			if steps%499 == 1 {
